@@ -165,6 +165,16 @@ func replay() {
 			replayCodec(id, f[2], unhx(f[3]), unhx(f[4]))
 		case "STREAM":
 			replayStream(id, f)
+		case "FLOAT":
+			// FLOAT id enc bits pattern quoted | FLOAT id dec bits literal
+			if len(f) >= 6 && f[2] == "enc" {
+				bits, _ := strconv.Atoi(f[3])
+				pat, _ := strconv.ParseUint(f[4], 16, 64)
+				emitFloatEnc(id, bits, pat, f[5] == "1")
+			} else if len(f) >= 5 && f[2] == "dec" {
+				bits, _ := strconv.Atoi(f[3])
+				emitFloatDec(id, bits, string(unhx(f[4])))
+			}
 		case "CLI":
 			// CLI id pkg stdin n files…
 			if len(f) < 5 {
